@@ -184,6 +184,13 @@ Theorem C17_app_judgement_sound : forall mc, JudgeC17P.profile_C17b mc = true ->
 Proof. exact JudgeC17P.C17_app_judgement_sound. Qed.
 
 
+(* ---- app stage: the executable judgement of coq/Check is sound for the model on every scenario of the profile, and transfers
+   to every trace that agrees with the model's run ---- *)
+From BEI Require Proofs.JudgeC17eP.
+Theorem C17_entity_judgement_sound : forall mc, JudgeC17eP.profile_C17eb mc = true -> C17c.ok (mc, JudgeC17P.model_out mc) = 0%Z.
+Proof. exact JudgeC17eP.C17_entity_judgement_sound. Qed.
+
+
 Print Assumptions C17_cequiv_refl.
 Print Assumptions C17_cequiv_sym.
 Print Assumptions C17_cequiv_trans.
@@ -213,3 +220,4 @@ Print Assumptions C17_unbound_wheel.
 Print Assumptions C17_unbound_gamepads.
 Print Assumptions C17_deterministic.
 Print Assumptions C17_app_judgement_sound.
+Print Assumptions C17_entity_judgement_sound.
